@@ -50,6 +50,8 @@ type cliWorld struct {
 	onEvent     func(ev int)  // called before each pump iteration with the event counter
 	events      int
 	stuckProbe  bool
+	stopWaiter  chan struct{}
+	closedFirst bool
 }
 
 func newCliWorld(r *Run, org origin, uri string, fate func(nr *netReq) *netFate) *cliWorld {
@@ -124,24 +126,39 @@ func (w *cliWorld) closeClient() {
 	w.closeCalls++
 	if w.closeCalls == 1 {
 		w.closedAt = w.r.Now()
+		w.mu.Lock()
+		w.closedFirst = !w.waitSeen // at rest: the waiter goroutine has recorded any value already yielded
+		w.mu.Unlock()
 	}
 	w.c.Close()
 	syncWait()
 }
 
-func (w *cliWorld) pollWait() {
-	select {
-	case err := <-w.c.Wait():
-		w.mu.Lock()
-		if w.waitSeen {
-			w.waitExtra++
-		} else {
-			w.waitSeen, w.waitErr, w.waitAt = true, err, w.r.Now()
+// pollWait is kept for call sites that want to make sure the waiter goroutine has run.
+func (w *cliWorld) pollWait() { syncWait() }
+
+// startWaiter receives from Wait() on a goroutine of its own, so that the moment of the first value
+// is recorded exactly (and callbacks after it are counted from that instant on).
+func (w *cliWorld) startWaiter() {
+	w.stopWaiter = make(chan struct{})
+	go func() {
+		for {
+			select {
+			case err := <-w.c.Wait():
+				w.mu.Lock()
+				if w.waitSeen {
+					w.waitExtra++
+				} else {
+					w.waitSeen, w.waitErr, w.waitAt = true, err, w.r.Now()
+				}
+				w.mu.Unlock()
+				w.r.Log("client", "%v Wait -> %v", w.r.Now(), err)
+				w.net.tr.poke()
+			case <-w.stopWaiter:
+				return
+			}
 		}
-		w.mu.Unlock()
-		w.r.Log("client", "%v Wait -> %v", w.r.Now(), err)
-	default:
-	}
+	}()
 }
 
 // run drives the world until Wait has yielded and the observation window after it has passed,
@@ -152,6 +169,7 @@ func (w *cliWorld) run() {
 		return
 	}
 	w.started = true
+	w.startWaiter()
 	for {
 		syncWait()
 		w.events++
@@ -202,7 +220,11 @@ func (w *cliWorld) finish() {
 		syncWait()
 		w.net.pump()
 	}
-	w.pollWait()
+	if w.stopWaiter != nil {
+		close(w.stopWaiter)
+		w.stopWaiter = nil
+	}
+	syncWait()
 }
 
 func isTerminated(err error) bool { return err != nil && err.Error() == "terminated" }
